@@ -152,17 +152,46 @@ def h3_endpoint_job(ctx):
     """C04 / C12 (QUIC clauses) and the HTTP3 session gauge of C16: the composition EndpointQuic.tla, trace-validated on a real endpoint."""
     ctx.build("epq")
     mc = ctx.tlc("MCEndpointQuic", "MCEndpointQuic.cfg", workers=2, timeout=300,
-                 require_actions=("Established", "RulesEval", "SessionOpen", "Request", "TcpOpen", "SessionClose", "Drop"))
+                 require_actions=("ClientHello", "InitialIn", "Established", "RulesEval", "SessionOpen", "Request", "TcpOpen", "SessionClose", "Drop"))
     ctx.spec_must_hold(mc)
+    # the design that takes the client random when the connection object is created (after the first Initial packet) is not a
+    # refinement of the intended one: the model must tell the two apart through a ClientHello that spans several packets
+    early = ctx.tlc("MCEndpointQuic", "MCEndpointQuic.early.cfg", name="MCEndpointQuic.early", workers=2, timeout=300, coverage=False)
+    if not (early["error"] and "HandshakeRandom" in early["error"]):
+        raise ToolError("EndpointQuic.tla with ReadAtFirst = TRUE must violate HandshakeRandom (got: %s)" % early["error"])
     trace = os.path.join(ctx.work, "endpoint_quic.ndjson")
-    r = ctx.harness("epq", ["--rounds", "4" if ctx.thorough else "2", "--trace", trace], env={"VERIF_ROOT": ROOT}, timeout=1200)
+    # every kind of visit meets every ClientHello size class (1, 2, 3 Initial packets; thorough: and about 6) once per 3 (4) rounds
+    r = ctx.harness("epq", ["--rounds", "8" if ctx.thorough else "3", "--trace", trace], env={"VERIF_ROOT": ROOT}, timeout=1200)
     c = r["counters"]
     lines = open(trace).read().splitlines() if os.path.exists(trace) else []
     evs = [json.loads(l) for l in lines]
     denied = sum(1 for e in evs if e.get("ev") == "RulesEval" and e.get("verdict") == "deny")
     allowed = sum(1 for e in evs if e.get("ev") == "RulesEval" and e.get("verdict") == "allow")
-    if not r.get("violations") and (c.get("events", 0) < 100 or denied < 3 or allowed < 3 or c.get("answered", 0) == 0 or c.get("unanswered", 0) == 0):
-        raise ToolError("vacuous QUIC endpoint job: %s events, %d denied, %d allowed, %s answered, %s unanswered" % (c.get("events"), denied, allowed, c.get("answered"), c.get("unanswered")))
+    # rule evaluations per ClientHello size (Initial datagrams of the client's first flight, measured by the client) while the
+    # random-dependent deny rule is configured
+    by_size, rules_on, pkts = {}, False, 0
+    for e in evs:
+        if e.get("ev") == "Config":
+            rules_on = bool(e.get("deny_rules"))
+        elif e.get("ev") == "QuicClientHello":
+            pkts = e.get("pkts", 0) if e.get("established") else 0
+        elif e.get("ev") == "ConnEnd":
+            pkts = 0
+        elif e.get("ev") == "RulesEval" and rules_on and pkts:
+            by_size.setdefault(pkts, {"allow": 0, "deny": 0})[e.get("verdict")] += 1
+    def not_vacuous():
+        if c.get("events", 0) < 100 or denied < 3 or allowed < 3 or c.get("answered", 0) == 0 or c.get("unanswered", 0) == 0:
+            raise ToolError("vacuous QUIC endpoint job: %s events, %d denied, %d allowed, %s answered, %s unanswered" % (c.get("events"), denied, allowed, c.get("answered"), c.get("unanswered")))
+        for n in (1, 2, 3):
+            if c.get("hello_pkts_%d" % n, 0) < 3 or sum(by_size.get(n, {}).values()) < 3:
+                raise ToolError("vacuous QUIC endpoint job: ClientHello in %d Initial packet(s): %s handshakes, rule evaluations %s" % (n, c.get("hello_pkts_%d" % n, 0), by_size.get(n)))
+        if c.get("hello_tail_first", 0) == 0:
+            raise ToolError("vacuous QUIC endpoint job: no multi-packet ClientHello was delivered tail first")
+        if sum(by_size[n]["allow"] for n in (2, 3)) == 0:
+            raise ToolError("vacuous QUIC endpoint job: the random rule allowed no client with a multi-packet ClientHello: %s" % by_size)
+    if not r.get("violations") and c.get("events", 0) < 100:
+        not_vacuous()
+    before = len(ctx.violations)
     s = ctx.tlc("EndpointQuicTrace", "EndpointQuicTrace.cfg", name="EndpointQuicTrace", trace_mode=True, env={"TRACE": trace}, timeout=600, coverage=False)
     um = None
     with open(s["out"], errors="replace") as f:
@@ -179,21 +208,32 @@ def h3_endpoint_job(ctx):
         extra = ""
         if ev == "ConnEnd" and k < len(evs):
             extra = ":%s:%s" % (evs[k].get("kind"), "answered" if evs[k].get("responded") else "unanswered")
+        if ev == "QuicEstablished" and prev == "QuicClientHello":
+            # the random the multiplexer reports is not the one of the client's ClientHello: the class is the size of that ClientHello
+            extra = ":%s-packet-hello" % ("multi" if evs[k - 1].get("pkts", 1) > 1 else "single")
         what = "no behaviour of EndpointQuic.tla explains this event" if um else "an invariant of EndpointQuic.tla is false on the recorded execution: %s" % s["error"]
         ctx.violations.append({"sig": ("endpoint-quic:reject:%s:after:%s%s" % (ev, prev, extra)) if um else "endpoint-quic:invariant",
                                "what": "%s: %s" % (what, lines[k] if k < len(lines) else ""),
                                "detail": {"kind": "trace", "module": "EndpointQuicTrace", "connection": lines[start:k + 3]}, "job": "EndpointQuicTrace"})
+    # anti-vacuity (only meaningful for an execution the specification accepts)
+    if not r.get("violations") and len(ctx.violations) == before:
+        not_vacuous()
     return {
         "h3_endpoint_connections": r["evaluations"], "h3_endpoint_events_validated": c.get("events", 0), "h3_endpoint_model_states": mc["distinct"],
         "h3_endpoint_denied": denied, "h3_endpoint_allowed": allowed,
+        "h3_endpoint_rule_evaluations_by_client_hello_packets": {str(k): v for k, v in sorted(by_size.items())}, "h3_endpoint_tail_first_hellos": c.get("hello_tail_first", 0),
         "h3_endpoint_rule": ("a Core listening with listen_protocols.quic (rules: deny 127.0.0.64/26, deny client randoms whose first bit is clear; no rules; the same on a dual-stack "
                              "listener) is visited by one quiche client at a time (tunnel CONNECT / refused / no credentials / GET ending its stream, ping host, denied source, silent, "
-                             "garbage datagram); the hook events QuicEstablished, RulesEval, H3Request, Gauge and the client's own view (the random of its ClientHello read back from its "
-                             "TLS stack, whether anything was answered) are validated as one trace against EndpointQuic.tla: rules evaluated on the canonical address with exactly the "
-                             "random of the client's completed handshake, verdict = the rule list's, a denied connection processes no request and is answered nothing, an allowed one "
+                             "garbage datagram), every kind with a ClientHello of every size class of the specification (HelloSizes: 1, 2, 3 Initial packets - the stock quiche hello, and "
+                             "hellos inflated to about 1.3 kB and 2.9 kB with a long ALPN list; the number of datagrams is measured; multi-packet flights in order and tail first); the "
+                             "hook events QuicEstablished, RulesEval, H3Request, Gauge and the client's own view (the random of its ClientHello read back from its "
+                             "TLS stack and the datagrams it took, whether anything was answered) are validated as one trace against EndpointQuic.tla: the random the multiplexer hands on "
+                             "is the ClientHello's whatever its size (MCEndpointQuic.early.cfg: the design that reads it after the first packet must violate HandshakeRandom), rules "
+                             "evaluated on the canonical address with exactly the random of the client's completed handshake, verdict = the rule list's, a denied connection processes no request and is answered nothing, an allowed one "
                              "is answered, the HTTP3 session gauge is held exactly while a tunnel connection is served."),
         "h3_endpoint_assumptions": [
             "which connections the random rule denies is decided by the client's TLS stack (about every second one); the job requires at least 3 denied and 3 allowed evaluations",
             "'answered nothing' = no response head within 700 ms of the request on a loopback connection whose handshake completed",
+            "large ClientHellos are made with a long ALPN list (quiche offers no post-quantum key share); the ClientHello of the completed handshake is the one sent after the endpoint's stateless Retry, its packet count = Initial datagrams of the first burst that carries the retry token",
         ],
     }
